@@ -192,6 +192,23 @@ def run_group(pid, grp, tier, out, repo, work):
         return run_featdiff_group(pid, grp, tier, out, repo, work)
     feats = grp.get("features", [])
     prog, err, dsecs = load_program(repo, work, feats)
+    if prog is None and "verif-corpus" in feats and "MIR dump failed" in str(err):
+        # the corpus consists of programs that are valid by the documented grammar.  If the crate
+        # compiles without the corpus but not with it, the macros REJECT a valid program: that is a
+        # violation of C19 (decided by rustc running the real macros; re-run once = the replay)
+        base, berr, _ = load_program(repo, work, [f for f in feats if f != "verif-corpus"])
+        if base is not None:
+            prog2, err2, _ = load_program(repo, work, feats)
+            if prog2 is None:
+                rdir = os.path.join(work, "replays", pid)
+                os.makedirs(rdir, exist_ok=True)
+                rp = os.path.join(rdir, "corpus_rejected.json")
+                json.dump({"property": pid, "message": "the macros reject a program of the valid corpus", "compiler_errors": err2,
+                           "corpus": os.path.join(work, "mir", "corpus.rs"), "replay_cmd": "bin/check %s (compiles the corpus with the real macros)" % pid}, open(rp, "w"), indent=1)
+                out.obligations.append({"engine": "mir", "name": "mir:macro_corpus[compile]", "features": feats, "status": "violated", "replayed": True,
+                                        "bounds": "the generated corpus", "encodes": "every corpus program is accepted by the macros"})
+                out.violations.append({"name": "mir:macro_corpus[compile]", "replay": rp, "failed_checks": ["corpus program rejected: " + str(err2)[:300]], "detail": str(err2)[:300]})
+                return
     if prog is None:
         out.inconclusive.append(err)
         return
